@@ -44,10 +44,14 @@ fn subject(name: String, bytes: Vec<u8>, model: Class) -> Result<Subject, String
 // ------------------------------------------------------------------------------------------------ stream wrapper
 
 /// Read + Seek over a byte slice that keeps its own account of the position (independent of Cursor::position)
-struct Tracked<'a> { inner: Cursor<&'a [u8]>, pos: u64, max_touched: u64, reads: u64, seeks: u64 }
-impl<'a> Tracked<'a> { fn new(b: &'a [u8], start: u64) -> Tracked<'a> { let mut inner = Cursor::new(b); inner.set_position(start); Tracked { inner, pos: start, max_touched: start, reads: 0, seeks: 0 } } }
+struct Tracked<'a> { inner: Cursor<&'a [u8]>, pos: u64, max_touched: u64, reads: u64, seeks: u64, /// hand the bytes out in short reads (legal for any `Read`): every third stream
+    short: bool }
+impl<'a> Tracked<'a> { fn new(b: &'a [u8], start: u64) -> Tracked<'a> { let mut inner = Cursor::new(b); inner.set_position(start); Tracked { inner, pos: start, max_touched: start, reads: 0, seeks: 0, short: common::rng::fnv(b) % 3 == 0 } } }
 impl Read for Tracked<'_> {
-    fn read(&mut self, buf: &mut [u8]) -> std::io::Result<usize> { let n = self.inner.read(buf)?; self.pos += n as u64; self.reads += 1; if self.pos > self.max_touched { self.max_touched = self.pos; } Ok(n) }
+    fn read(&mut self, buf: &mut [u8]) -> std::io::Result<usize> {
+        let lim = if self.short && !buf.is_empty() { (1 + ((self.pos as usize).wrapping_mul(7) + self.reads as usize) % 5).min(buf.len()) } else { buf.len() };
+        let n = self.inner.read(&mut buf[..lim])?; self.pos += n as u64; self.reads += 1; if self.pos > self.max_touched { self.max_touched = self.pos; } Ok(n)
+    }
 }
 impl Seek for Tracked<'_> {
     fn seek(&mut self, to: SeekFrom) -> std::io::Result<u64> {
